@@ -42,7 +42,7 @@ func (g *generator) generateParallel(
 		return err
 	}
 
-	if _, err := io.WriteString(w, "func() (err error) {\n"); err != nil {
+	if _, err := io.WriteString(w, "func() (_cffErr error) {\n"); err != nil {
 		return err
 	}
 
